@@ -237,8 +237,31 @@ def F13():
   return '; '.join(bad) or None
 
 
+def F14():
+  """concat([x, const]) with the shipped static-range recipes: the constant is retyped, its buffer is not rewritten."""
+  import tensorflow as tf
+  c = np.linspace(-2, 2, 16).astype(np.float32).reshape(2, 8)
+  m = tf.Module()
+  m.f = tf.function(lambda x: {'out': tf.concat([x, tf.constant(c)], axis=1)})
+  model = tf.lite.TFLiteConverter.from_concrete_functions([m.f.get_concrete_function(tf.TensorSpec([2, 8], tf.float32))], m).convert()
+  rng = np.random.default_rng(1)
+  data = [{'x': rng.normal(size=(2, 8)).astype(np.float32)} for _ in range(3)]
+  bad = []
+  for rp in ('default_a8w8_recipe.json', 'default_a16w8_recipe.json'):
+    qt = quantizer.Quantizer(bytearray(model), R + rp)
+    out = qt.quantize(qt.calibrate(data, signature_key='serving_default')).quantized_model
+    q = flatbuffer_utils.read_model_from_bytearray(bytearray(out))
+    for t in q.subgraphs[0].tensors:
+      b = q.buffers[t.buffer]
+      if b.data is not None and len(b.data):
+        width = {s.TensorType.INT8: 1, s.TensorType.INT16: 2, s.TensorType.FLOAT32: 4}.get(t.type, 0)
+        if width * int(np.prod(t.shape)) != len(b.data):
+          bad.append('%s: constant %s is %s%s but its buffer holds %d bytes' % (rp, t.name.decode(), TT[t.type], list(map(int, t.shape)), len(b.data)))
+  return '; '.join(bad) or None
+
+
 if __name__ == '__main__':
-  cases = sys.argv[1:] or ['F%d' % i for i in range(1, 11)] + ['F6b', 'F12', 'F13']
+  cases = sys.argv[1:] or ['F%d' % i for i in range(1, 11)] + ['F6b', 'F12', 'F13', 'F14']
   for c in cases:
     try:
       r = globals()[c]()
